@@ -1,7 +1,7 @@
 """C07 - Silent instances are detected in bounded time, live ones never declared lost (structural clauses)."""
 import ast
 from ..model import own_nodes, AnalysisError
-from ..paths import expand_self, factmap, must_call, call_text, returns
+from ..paths import statements, expand_self, factmap, must_call, call_text, returns
 from ..typestate import InstanceTypestate
 from ..fsm import Fsm
 from . import shared
@@ -254,14 +254,7 @@ def run(P, R):
     # ---------------------------------------------------------------- R7
     r7 = R.rule('R7', 'bus agreement', 'an XML-RPC transport failure posts INSTANCE_FAILURE for an active remote peer, '
                 'and the reader branch of INSTANCE_FAILURE calls on_instance_failure', 3)
-    u = P.unit('SupervisorProxyThread.handle_exception')
-    fm = factmap(u)
-    push = [c for c in own_nodes(u.node) if isinstance(c, ast.Call) and call_text(c).endswith('.push_notification')]
-    ok = len(push) == 1 and {tuple(f) for f in fm.at(push[0])} == {
-        ('self.local_identifier == self.status.identifier', False), ('self.status.has_active_state()', True)} and \
-        any(ast.unparse(x) == 'NotificationHeaders.INSTANCE_FAILURE.value' for x in own_nodes(u.node))
-    R.check(r7, ok, 'a failed proxy of an active remote peer posts INSTANCE_FAILURE', 'bus|handle_exception', u.loc(),
-            'handle_exception does not post INSTANCE_FAILURE under exactly (remote, active state)')
+    shared.transport_failure_posted(P, R, r7)
     u = P.unit('SupervisorProxyThread.process_event')
     ok = any(isinstance(h, ast.ExceptHandler) and h.type is not None and ast.unparse(h.type) == 'SupervisorProxyException'
              and any(isinstance(c, ast.Call) and call_text(c) == 'self.handle_exception' for s in h.body for c in ast.walk(s))
@@ -274,6 +267,41 @@ def run(P, R):
     ok = len(k) == 1 and fm.has(k[0], 'header == NotificationHeaders.INSTANCE_FAILURE', True)
     R.check(r7, ok, 'the INSTANCE_FAILURE branch declares the failure', 'bus|read_notification', u.loc(),
             'read_notification does not call fsm.on_instance_failure in the INSTANCE_FAILURE branch')
+    # the local TICK counter is the clock of the inactivity check: it advances at EVERY Supervisor TICK, whatever
+    # happens later in the handler (whose exceptions are swallowed)
+    ot = P.unit('SupervisorListener.on_tick')
+    fmt = factmap(ot)
+    incs = [a for a in own_nodes(ot.node) if isinstance(a, ast.AugAssign) and ast.unparse(a.target) == 'self.counter']
+    ok = len(incs) == 1 and isinstance(incs[0].op, ast.Add) and ast.unparse(incs[0].value) == '1' and not fmt.at(incs[0])
+    risky = []
+    if ok:
+        for st in statements(ot.node):
+            if st is incs[0]:
+                break
+            if isinstance(st, (ast.Try, ast.If, ast.For, ast.While, ast.With)):
+                continue
+            for c in ast.walk(st):
+                if isinstance(c, ast.Call):
+                    t = call_text(c)
+                    if not ('logger' in t.split('.') or t in ('time.monotonic', 'time.time')):
+                        risky.append(t)
+    R.check(r6, ok and not risky, 'the local TICK counter advances at every TICK, before anything that can fail',
+            'threshold|counter', ot.loc(), 'SupervisorListener.on_tick increments self.counter %s: an exception swallowed '
+            'by the handler freezes the counter and a silent peer is never declared FAILED' %
+            ('after %s' % risky if ok else 'conditionally or not exactly once'))
+    # the failure of a remote peer is posted through the proxy to the LOCAL Supervisor: that proxy is re-created when it
+    # has not been used for LOCAL_PROXY_DURATION (the http channel is killed after 30 minutes of inactivity)
+    px = P.unit('SupervisorProxy.proxy')
+    fmp = factmap(px)
+    mk = [a for a in own_nodes(px.node) if isinstance(a, ast.Assign) and ast.unparse(a.targets[0]) == 'self._proxy']
+    renew = [a for a in mk if any(pol and 'self.last_used' in t and 'LOCAL_PROXY_DURATION' in t for t, pol in fmp.closed(a))]
+    fresh = [a for a in own_nodes(px.node) if isinstance(a, ast.Assign) and ast.unparse(a.targets[0]) == 'self.last_used']
+    ok = len(renew) == 1 and ast.unparse(renew[0].value) == 'self._get_proxy()' and \
+        all(fmp.closed(f) == fmp.closed(renew[0]) for f in fresh)
+    R.check(r7, ok, 'the proxy to the local Supervisor is re-created when it expired', 'bus|local-proxy-renewal', px.loc(),
+            'SupervisorProxy.proxy does not re-create the local proxy under the expiry test (renewals: %s; last_used reset '
+            'under %s): the INSTANCE_FAILURE notification goes out on a dead channel' %
+            ([ast.unparse(a) for a in renew], [sorted(fmp.closed(f)) for f in fresh]))
     R.assume('Accuracy/completeness over tick phase offsets and message delays is NOT decided (timing).')
     R.assume('Facts about an instance state are assumed to still hold at the assignment unless a statement on the '
              'path may rewrite it (same-receiver assignment or a call passing the receiver to a state-writing '
